@@ -67,7 +67,7 @@ zoo_s = 0x12
     .ascii 'it\\'s a string with ; and /* inside'
     lda (0x12),y
     lda [0x34],y
-    sta (0x56,x)
+    lda (0x56,x)
     lda 0x1234,x
 }
 .if zoo_c {
@@ -86,6 +86,22 @@ zoo_c := 3
 .map identifier=7 bank_range=0x00, 0x3f addr_range=0x8000, 0xffff mask=0x8000 mirror_bank_range=0x80, 0xbf
 .table 'zoo.tbl'
 .text 'ABC[0x12]'
+{
+    {
+        .text 'AB'
+        .scope zoo_deep {
+            { .text 'C' }
+        }
+    }
+}
+.macro zoo_blk(blk) {
+    {{ blk }}
+}
+zoo_blk({
+    zoo_blk({
+        nop
+    })
+})
 .include_ips 'zoo.ips', -0x200
 .incbin 'zoo.bin'
 .pointer zoo_scope.inner_l
@@ -98,7 +114,7 @@ SOUP_TOKENS = [
     "|", "<<", ">>", "==", "!=", "<", ">", "~", ".", ":", "\\", "?", "\0", "\t", "\n", "\n", "identifier=1", "bank_range=0,1", "é", "x := 1", "i := 0, 2",
 ]  # fmt: skip
 SOUP_TOKENS += [c for c in "!\"#$%&'()*+,-./:;<=>?@[\\]^_`{|}~"]  # every ASCII punctuation character on its own
-SOUP_TOKENS += [".macro r() {\n r()\n}\nr()", ".macro ra() {\n rb()\n}\n.macro rb() {\n ra()\n}\nra()", ".macro q(b) {\n {{ b }}\n}\nq({\n q({\n nop\n})\n})", "{ { { { { { { {", "( ( ( ( ( ( (", "lda ((((((((1", "lda #-1", "lda -1", "#-1", "-1", ".ascii 'a fairly long string, never closed, with enough characters", "'" + "x" * 40, "lda #1 %", "lda (", "lda [", "lda #(", "lda.w #A %", ".db 1 %", "'main.s'", ".include 'main.s'", "a.b.c", "a..b", "0x", "0b", "0o7", "1e5", "lda.", "lda.w", ".", "..", ".db", ".db ,", ",,", "{{ x", "x }}", "*=", "@= 1", "x :=", "x =", "m(,)", "m((", "))"]
+SOUP_TOKENS += [".macro cy(a) {\n {{ a }}\n}\ncy({\n {{ a }}\n})", ".macro cz(a, b) {\n {{ a }}\n}\ncz({\n {{ b }}\n}, {\n {{ a }}\n})", "{\n {\n .text 'AB'\n }\n}", ".macro r() {\n r()\n}\nr()", ".macro ra() {\n rb()\n}\n.macro rb() {\n ra()\n}\nra()", ".macro q(b) {\n {{ b }}\n}\nq({\n q({\n nop\n})\n})", "{ { { { { { { {", "( ( ( ( ( ( (", "lda ((((((((1", "lda #-1", "lda -1", "#-1", "-1", ".ascii 'a fairly long string, never closed, with enough characters", "'" + "x" * 40, "lda #1 %", "lda (", "lda [", "lda #(", "lda.w #A %", ".db 1 %", "'main.s'", ".include 'main.s'", "a.b.c", "a..b", "0x", "0b", "0o7", "1e5", "lda.", "lda.w", ".", "..", ".db", ".db ,", ",,", "{{ x", "x }}", "*=", "@= 1", "x :=", "x =", "m(,)", "m((", "))"]
 
 
 def lexical_bucket(text: bytes, at: int) -> str:
@@ -460,7 +476,11 @@ def expand(case: dict[str, Any], stats: Stats) -> Iterator[dict[str, Any]]:
         o = entries.execute_one(wl["files"], roles, make_spec(entry, wl["mapping"], 5_000_000), {}, [], mem_bytes=MEM_LIMIT)
         stats.add_outcome(o)
         e0[entry] = o["steps"]
-        if o["kind"] == "timeout" or o["steps"] > 50_000:
+        if o["kind"] == "timeout":
+            # the *unfaulted* workload does not finish: judged like any other input (second stage, guards)
+            yield {"type": "single", "workload": wl, "faults": [], "entry": entry, "e0": 50_000}
+            return
+        if o["steps"] > 50_000:
             stats.bump("generator_discard(fault-free run too long)")
             return
     data = wl["files"][wl["target"]]
